@@ -40,7 +40,7 @@ fn fields(fs: &syn::Fields) -> Value {
         syn::Fields::Named(n) => ("named", n.named.iter().map(field).collect()),
         syn::Fields::Unnamed(u) => ("tuple", u.unnamed.iter().map(field).collect()),
     };
-    json!({"style": style, "fields": list})
+    json!({"style": style, "fields": list, "span": span_json(fs.span())})
 }
 
 pub fn echo_decl(di: &syn::DeriveInput) -> Value {
@@ -53,7 +53,7 @@ pub fn echo_decl(di: &syn::DeriveInput) -> Value {
     };
     let g = &di.generics;
     json!({
-        "ident": di.ident.to_string(), "attrs": dattrs(&di.attrs), "body": body,
+        "ident": di.ident.to_string(), "ident_span": span_json(di.ident.span()), "attrs": dattrs(&di.attrs), "body": body,
         "type_params": g.type_params().map(|t| t.ident.to_string()).collect::<Vec<_>>(),
         "lifetimes": g.lifetimes().map(|l| l.lifetime.to_string()).collect::<Vec<_>>(),
         "const_params": g.const_params().map(|c| c.ident.to_string()).collect::<Vec<_>>(),
@@ -193,10 +193,11 @@ pub fn run_derive(case: &Value) -> Value {
     let echo = echo_decl(&di);
     let tr = case["trait"].as_str().unwrap_or("");
     match catch(|| run_trait(tr, &di)) {
-        Err(m) => json!({"echo": echo, "panic": m}),
+        Err(m) => json!({"or": crate::conv::syn_oracles(&echo), "echo": echo, "panic": m}),
         Ok(None) => json!({"error": "unknown trait"}),
         Ok(Some(ts)) => {
             let mut out = analyse(ts.clone());
+            out["or"] = crate::conv::syn_oracles(&echo);
             out["echo"] = echo;
             if case["tokens"].as_bool().unwrap_or(false) {
                 out["tokens"] = Value::String(ts.to_string());
